@@ -2,6 +2,7 @@ package gedcom
 
 import (
 	"fmt"
+	"sync"
 )
 
 // DateNode represents a DATE node.
@@ -15,13 +16,16 @@ type DateNode struct {
 	// should not be parsed again.
 	alreadyParsed   bool
 	parsedDateRange DateRange
+
+	// Dates are parsed on demand, which can happen from several goroutines at
+	// the same time (such as when comparing individuals with multiple jobs).
+	parseMutex sync.Mutex
 }
 
 // NewDateNode creates a new DATE node.
 func NewDateNode(value string, children ...Node) *DateNode {
 	return &DateNode{
-		newSimpleNode(TagDate, value, "", children...),
-		false, DateRange{},
+		SimpleNode: newSimpleNode(TagDate, value, "", children...),
 	}
 }
 
@@ -31,17 +35,18 @@ func (node *DateNode) DateRange() (dateRange DateRange) {
 		return NewZeroDateRange()
 	}
 
+	node.parseMutex.Lock()
+	defer node.parseMutex.Unlock()
+
 	// Parsing dates is very expensive. Cache them.
 	if node.alreadyParsed {
 		return node.parsedDateRange
 	}
 
-	defer func(node *DateNode) {
-		node.parsedDateRange = dateRange
-		node.alreadyParsed = true
-	}(node)
+	node.parsedDateRange = NewDateRangeWithString(node.Value())
+	node.alreadyParsed = true
 
-	return NewDateRangeWithString(node.Value())
+	return node.parsedDateRange
 }
 
 // String returns the date range as defined in the specification of DateNode.
